@@ -65,6 +65,11 @@ func (o *OracleC05) AfterCall(n *Node, st *Step) {
 	}
 	d := n.d
 	s := o.s
+	// the "recovering" marker only lives inside the processing of one recovery message
+	if d.VerifState().Recovering {
+		o.viol(n, "recovering_flag_left_set", "height %d view %d: %s returned with the recovering marker still set (it would give the next primary slot the backups' timeout and suppress round-trip samples)", d.BlockIndex, d.ViewNumber, st.describe())
+		return
+	}
 	if pre, ok := o.preFP[n.id]; ok {
 		// (b) the node had decided before this call and was not re-initialised by it
 		s.st.Exercised = true
@@ -95,7 +100,7 @@ func (o *OracleC05) AfterCall(n *Node, st *Step) {
 	// (d) payloads received early are kept for the height (view) they belong to: a payload
 	// for a future height whose sender is a validator OF THAT HEIGHT, or for a future view of
 	// the current height, must sit in the future-message cache when the call returns
-	if st.Op == OpReceive && st.P != nil && !st.Probe && !st.PreDec {
+	if st.Op == OpReceive && st.P != nil && !st.Probe && (!st.PreDec || st.P.H > st.PreBI) {
 		p := st.P
 		kind := ""
 		switch p.T {
@@ -190,6 +195,24 @@ func (o *OracleC05) AfterCall(n *Node, st *Step) {
 	if vs.TimePerBlock != s.sc.TPBAt(tip+1) || (s.sc.MaxTPB > 0 && vs.MaxTimePerBlock != s.sc.MaxTPBAt(tip+1)) {
 		o.viol(n, "stale_timing_after_reset", "height %d: time per block %v/%v, callbacks return %v/%v", d.BlockIndex, vs.TimePerBlock, vs.MaxTimePerBlock, s.sc.TPBAt(tip+1), s.sc.MaxTPBAt(tip+1))
 		return
+	}
+	if !d.RequestSentOrReceived() && d.ViewNumber == 0 {
+		// no proposal of the new height has been replayed from the cache: nothing derived from
+		// a proposal may be there
+		switch {
+		case vs.HasBlock, vs.HasPreBlock, vs.HasHeader, vs.HasPreHeader:
+			o.viol(n, "stale_block_after_reset", "height %d: a cached block/pre-block/header survived the initialisation (block=%v preblock=%v header=%v preheader=%v)", d.BlockIndex, vs.HasBlock, vs.HasPreBlock, vs.HasHeader, vs.HasPreHeader)
+			return
+		case vs.PreBlockProcessed:
+			o.viol(n, "stale_preblock_flag_after_reset", "height %d: the pre-block still counts as processed", d.BlockIndex)
+			return
+		case vs.TxSubscriptionOn:
+			o.viol(n, "stale_subscription_after_reset", "height %d: the transaction subscription of the previous height is still on", d.BlockIndex)
+			return
+		case len(d.Transactions) != 0 || len(d.MissingTransactions) != 0 || len(d.TransactionHashes) != 0:
+			o.viol(n, "stale_transactions_after_reset", "height %d: %d transactions, %d missing, %d proposed hashes retained", d.BlockIndex, len(d.Transactions), len(d.MissingTransactions), len(d.TransactionHashes))
+			return
+		}
 	}
 	if vs.LastBlockTimestamp != st.Arg {
 		o.viol(n, "stale_timestamp_after_reset", "height %d: previous block timestamp %d retained, %d was given", d.BlockIndex, vs.LastBlockTimestamp, st.Arg)
